@@ -133,8 +133,12 @@ def opFsReq (args : List SExp) : Option OpResult := do
     let abstain := overlong r.path || (match r.dest with | .path d => overlong d | _ => false)
     let impl := if abstain then "?" else s!"{prResponse out.2} {prTree out.1} {boolTok out.2.msg.mentionsHost} 0"
     let judge : String → List (String × String) := fun got =>
+      let unmappable0 := (target r.path).isNone ||
+        ((r.method = "COPY" || r.method = "MOVE") && (match r.dest with | .path d => (target d).isNone | _ => false))
       match parseAnswer got with
-      | none => [("C01", "unreadable-answer"), ("C13", "no-complete-response")]
+      | none => [("C01", "unreadable-answer"), ("C13", "no-complete-response")] ++
+          -- a request naming a path that cannot be mapped below the root must be REFUSED (4xx): no answer at all is not a refusal
+          (if unmappable0 then [("C03", "unmappable-path-not-refused-with-4xx")] else [])
       | some (t', resp, leak, canary) =>
         let existingFile := match target r.path with | some p => kind t p = .file | none => false
         let faultRegion := faulted r && existingFile && (refusals t r).isEmpty
